@@ -60,16 +60,16 @@ def reset(pre=(), decisions=(), todo=None):
     return CTX
 
 
-def _solver():
+def _solver(rlimit=None):
     s = z3.Solver()
     s.set("timeout", TIMEOUT_MS)
-    s.set("rlimit", RLIMIT)
+    s.set("rlimit", rlimit or RLIMIT)
     return s
 
 
-def check_sat(assertions):
+def check_sat(assertions, rlimit=None):
     """returns ('sat', model) | ('unsat', None) | ('unknown', None)"""
-    s = _solver()
+    s = _solver(rlimit)
     s.add(*assertions)
     t = time.time()
     r = s.check()
@@ -142,6 +142,89 @@ def poly_zero(t):
     return (z3.is_int_value(r) and r.as_long() == 0) or (z3.is_rational_value(r) and r.numerator_as_long() == 0)
 
 
+UMUL = z3.Function("umul", z3.RealSort(), z3.RealSort(), z3.RealSort())
+_abs_cache = {}
+
+
+def _split_const(t):
+    """t = c * rest with c a rational numeral (python Fraction-like pair) -> (c_term or None, rest)"""
+    if z3.is_mul(t):
+        consts = [c for c in t.children() if z3.is_rational_value(c) or z3.is_int_value(c)]
+        rest = [c for c in t.children() if not (z3.is_rational_value(c) or z3.is_int_value(c))]
+        if consts and rest:
+            c = consts[0]
+            for x in consts[1:]:
+                c = c * x
+            r = rest[0]
+            for x in rest[1:]:
+                r = r * x
+            return z3.simplify(c), r
+    if z3.is_app(t) and t.decl().kind() == z3.Z3_OP_UMINUS:
+        c, r = _split_const(t.arg(0))
+        return (z3.simplify(-c) if c is not None else z3.RealVal(-1)), r
+    return None, t
+
+
+def abstract_mul(t):
+    """replace products of two non-constant REAL terms by the uninterpreted, commutative, constant-homogeneous
+    function umul.  If a formula is valid with umul uninterpreted it is valid for real multiplication
+    (real multiplication is one interpretation); a counter-model of the abstraction proves nothing."""
+    k = t.get_id()
+    if k in _abs_cache:
+        return _abs_cache[k][1]
+    if not z3.is_app(t) or t.num_args() == 0:
+        r = t
+    else:
+        kids = [abstract_mul(c) for c in t.children()]
+        if z3.is_mul(t) and t.sort() == z3.RealSort():
+            const = None
+            facs = []
+            for c in kids:
+                cc, rr = _split_const(c)
+                if z3.is_rational_value(c) or z3.is_int_value(c):
+                    const = c if const is None else const * c
+                    continue
+                if cc is not None:
+                    const = cc if const is None else const * cc
+                facs.append(rr)
+            if len(facs) <= 1:
+                r = facs[0] if facs else z3.RealVal(1)
+            else:
+                facs.sort(key=lambda x: x.get_id())
+                r = facs[0]
+                for f in facs[1:]:
+                    a, b = (r, f) if r.get_id() <= f.get_id() else (f, r)
+                    r = UMUL(a, b)
+            if const is not None:
+                r = z3.simplify(const) * r
+        else:
+            try:
+                r = t.decl()(*kids)
+            except z3.Z3Exception:
+                r = t
+    if len(_abs_cache) > 300000:
+        _abs_cache.clear()
+    _abs_cache[k] = (t, r)
+    return r
+
+
+def _has_nl_real_mul(t, seen=None):
+    seen = set() if seen is None else seen
+    stack = [t]
+    while stack:
+        x = stack.pop()
+        i = x.get_id()
+        if i in seen:
+            continue
+        seen.add(i)
+        if z3.is_app(x):
+            if z3.is_mul(x) and x.sort() == z3.RealSort():
+                if sum(1 for c in x.children() if not (z3.is_rational_value(c) or z3.is_int_value(c))) >= 2:
+                    return True
+            stack.extend(x.children())
+    return False
+
+
 def valid(e, extra=()):
     """is e valid under path condition + active hypotheses (+extra)?  unknown counts as 'not valid'"""
     if isinstance(e, bool):
@@ -178,6 +261,72 @@ def scope(hyps=()):
         del CTX.hyps[n0:]
 
 
+def _cond_atoms(t):
+    """arithmetic comparison atoms occurring in the conditions of if-then-else sub-terms of t"""
+    atoms, seen_ids = [], set()
+    seen = set()
+    stack = [t]
+
+    def add_atoms(c):
+        st = [c]
+        while st:
+            x = st.pop()
+            if z3.is_and(x) or z3.is_or(x) or z3.is_not(x):
+                st.extend(x.children())
+            elif z3.is_app(x) and x.decl().kind() in (z3.Z3_OP_LE, z3.Z3_OP_GE, z3.Z3_OP_LT, z3.Z3_OP_GT, z3.Z3_OP_EQ):
+                if x.get_id() not in seen_ids:
+                    seen_ids.add(x.get_id())
+                    atoms.append(x)
+    while stack:
+        x = stack.pop()
+        if x.get_id() in seen:
+            continue
+        seen.add(x.get_id())
+        if z3.is_app(x):
+            if x.decl().kind() == z3.Z3_OP_ITE:
+                add_atoms(x.arg(0))
+            stack.extend(x.children())
+    return atoms
+
+
+def prove_by_cases(goal, extra=(), max_leaves=600):
+    """validity of `goal` by case analysis on the comparison atoms of its if-then-else conditions: every leaf is an
+    ite-free (typically linear) query.  Complete enumeration of the feasible sign vectors => sound and, per leaf,
+    a 'refuted' answer is a genuine counter-model."""
+    leaves = [0]
+
+    def rec(g, atoms, hy):
+        g = z3.simplify(g)
+        if z3.is_true(g):
+            return "proved", None
+        i = 0
+        while i < len(atoms):
+            a = atoms[i]
+            i += 1
+            if valid(a, hy):
+                g = z3.simplify(z3.substitute(g, (a, z3.BoolVal(True))))
+            elif valid(z3.Not(a), hy):
+                g = z3.simplify(z3.substitute(g, (a, z3.BoolVal(False))))
+            else:
+                rest = atoms[i:]
+                r = rec(z3.substitute(g, (a, z3.BoolVal(True))), rest, hy + [a])
+                if r[0] != "proved":
+                    return r
+                return rec(z3.substitute(g, (a, z3.BoolVal(False))), rest, hy + [z3.Not(a)])
+            if z3.is_true(g):
+                return "proved", None
+        leaves[0] += 1
+        if leaves[0] > max_leaves:
+            return "unknown", None
+        # new atoms may have become visible (nested ites): one more round if any remain
+        more = [a for a in _cond_atoms(g)]
+        if more:
+            return rec(g, more, hy)
+        return refute_or_prove(g, hy)
+
+    return rec(goal, _cond_atoms(goal), list(extra))
+
+
 def add_hint(f):
     """add a fact to the path condition after proving it from the current context (sound by construction);
     used for small non-linear consequences that help the later, larger queries"""
@@ -191,7 +340,7 @@ def add_hint(f):
     return False
 
 
-def refute_or_prove(e, extra=()):
+def refute_or_prove(e, extra=(), rlimit=None):
     """('proved',None) | ('refuted',model) | ('unknown',None) for validity of e under the context"""
     if isinstance(e, bool):
         return ("proved", None) if e else ("refuted", None)
@@ -201,7 +350,13 @@ def refute_or_prove(e, extra=()):
     if z3.is_eq(e) and e.arg(0).sort() != z3.BoolSort() and poly_zero(e.arg(0) - e.arg(1)):
         return "proved", None
     goal = z3.Not(e)
-    r, m = check_sat(relevant(CTX.all_hyps() + list(extra), [goal]) + [goal])
+    hy = relevant(CTX.all_hyps() + list(extra), [goal])
+    if _has_nl_real_mul(e):
+        # first try with real multiplication abstracted to an uninterpreted commutative function: 'unsat' is sound
+        r, _ = check_sat([abstract_mul(h) for h in hy] + [abstract_mul(goal)], rlimit)
+        if r == "unsat":
+            return "proved", None
+    r, m = check_sat(hy + [goal], rlimit)
     if r == "unsat":
         return "proved", None
     if r == "sat":
